@@ -17,17 +17,17 @@ fn main() {
     install_quiet_panic_hook();
     watchdog("C27", args.pick(1500, 14400));
     let mut rep = Report::new("C27", "exploration", &args);
-    rep.rule = "multi-context programs as in C26 (2-3 contexts, cross-context derived streams, capacities 4..1000 so that forwards are not lost; one run in four uses capacities 1-3, 3-8 triggers and drains acknowledgements only every 1-12 inputs), 40-200 input events, 1-4 coordinated checkpoints triggered at random input positions through ContextOrchestrator::trigger_checkpoint / try_complete_checkpoint, hook H7 perturbation; every completed checkpoint is checked on the recorded trace. Non-trivial: completed checkpoint with >=1 cross-context event in flight at some barrier (forwarded before the producer's barrier, received after it, or vice versa around the consumer's barrier); distinct by hash of the trace order. Interleavings are sampled, not enumerated; the evidence counts the distinct ones seen.".into();
+    rep.rule = "multi-context programs as in C26 (2-3 contexts, cross-context derived streams, capacities 4..1000 so that forwards are not lost; every second run uses capacities 1-3, 3-8 triggers and drains acknowledgements only every 1-12 inputs), 40-200 input events, 1-4 coordinated checkpoints triggered at random input positions through ContextOrchestrator::trigger_checkpoint / try_complete_checkpoint, hook H7 perturbation; every completed checkpoint is checked on the recorded trace. Non-trivial: completed checkpoint with >=1 cross-context event in flight at some barrier (forwarded before the producer's barrier, received after it, or vice versa around the consumer's barrier); distinct by hash of the trace order. Interleavings are sampled, not enumerated; the evidence counts the distinct ones seen.".into();
     rep.assume("a checkpoint is 'completed' when try_complete_checkpoint reported completion; snapshots are taken where hook H7 logs the barrier (immediately before create_checkpoint)");
     rep.assume("the model-checking half of the property's quantifier is out of this technique family; the end-to-end restore+replay confirmation is not built: the verdict rests on the cut condition over the trace");
     #[cfg(not(varpulis_verif))]
     rep.inconclusive("built without --cfg varpulis_verif");
-    let runs = args.pick(60usize, 1500usize);
+    let runs = args.pick(200usize, 1500usize);
     let mut rng = Rng::new(args.seed ^ 0xC27);
     let mut interleavings = std::collections::BTreeSet::new();
     let mut checked = 0u64;
     let budget = std::time::Instant::now();
-    let max_secs = args.pick(60u64, 3000u64);
+    let max_secs = args.pick(240u64, 3000u64);
     for run in 0..runs {
         if budget.elapsed().as_secs() > max_secs {
             rep.set("stopped_early_after_runs", json!(run));
@@ -39,9 +39,9 @@ fn main() {
         }
         let n = 40 + rng.below(args.pick(100, 160));
         let events = gen_events(&mut rng, n);
-        // one run in four: tiny queues (a barrier may find a queue full), more triggers, acknowledgements drained
+        // every second run: tiny queues (a barrier may find a queue full), more triggers, acknowledgements drained
         // only every few inputs as a periodic checkpoint_tick would
-        let tight = rng.chance(1, 4);
+        let tight = rng.chance(1, 2);
         let nck = if tight { 3 + rng.below(6) } else { 1 + rng.below(4) };
         let cfg = RunCfg {
             capacity: if tight { *rng.pick(&[1usize, 2, 3]) } else { *rng.pick(&[4usize, 16, 64, 1000]) },
